@@ -4,6 +4,7 @@ mod arena;
 mod decode;
 mod gen;
 mod out;
+mod par;
 mod rng;
 mod sections;
 
@@ -12,11 +13,16 @@ fn main() {
     let suite = args.get(1).map(|s| s.as_str()).unwrap_or("");
     let mut tier = "quick".to_string();
     let mut only: Option<String> = None;
+    let mut role = "parallel".to_string();
     let mut i = 2;
     while i < args.len() {
         match args[i].as_str() {
             "--tier" => {
                 tier = args[i + 1].clone();
+                i += 1;
+            }
+            "--role" => {
+                role = args[i + 1].clone();
                 i += 1;
             }
             "--only" => {
@@ -32,6 +38,7 @@ fn main() {
     match suite {
         "arena" => arena::main(seed, &tier, only.as_deref()),
         "sections" => sections::main(seed, &tier, only.as_deref()),
+        "par" => par::main(seed, &tier, &role),
         "gentest" => {
             // generator self-test: how often are generated modules valid, what do they contain
             let mut rejected = 0;
